@@ -2,7 +2,7 @@
 import numpy as np
 from ..runner import Acc, HarnessError
 from ..refmodel import Fmt, MODES, quantize, quantize_code, add_fmt, mul_fmt, min_frac_bits, min_word, dy
-from ..common import Fxp, fx, codes, flags, fmt_of, reset_class_state
+from ..common import Fxp, fx, codes, flags, fmt_of, reset_class_state, build
 
 ID = 'C08'
 RULE = ('cases = (operand format pair, op, imposed-format mechanism [sizing policy | out | out_like | constant with op_input_size and '
@@ -88,15 +88,14 @@ def other_mode(m):
     return MODES[(i + 3) % len(MODES)]
 
 
-def mk_operand(fmt, cs, shape, mode, **kw):
-    arr = np.array(cs, dtype=np.int64).reshape(shape) if shape else cs[0]
-    return Fxp(arr, fmt.signed, fmt.n_word, fmt.n_frac, raw=True, rounding=mode[0], overflow=mode[1], **kw)
+def mk_operand(fmt, cs, shape, mode, by='raw', **kw):
+    return build(fmt, cs, tuple(shape) if shape else (), by, rounding=mode[0], overflow=mode[1], **kw)
 
 
-def judge_sizing(acc, fxm, fym, xs, ys, op, policy, method, mode, part):
+def judge_sizing(acc, fxm, fym, xs, ys, op, policy, method, mode, part, by='raw'):
     fz = sized(policy, fxm, fym)
     case = {'part': part, 'fx': list(fxm), 'fy': list(fym), 'xs': list(xs), 'ys': list(ys), 'op': op, 'policy': policy, 'method': method,
-            'mode': list(mode), '_sig': {'op': op, 'policy': policy, 'method': method}}
+            'mode': list(mode), 'by': by, '_sig': {'op': op, 'policy': policy, 'method': method}}
     if fz.n_word < 1:
         acc.skipped += 1
         return
@@ -105,8 +104,8 @@ def judge_sizing(acc, fxm, fym, xs, ys, op, policy, method, mode, part):
     acc.dim('method', method)
     acc.dim('mode', '%s/%s' % tuple(mode))
     try:
-        x = mk_operand(fxm, xs, (len(xs), 1), mode)
-        y = mk_operand(fym, ys, (1, len(ys)), other_mode(mode))
+        x = mk_operand(fxm, xs, (len(xs), 1), mode, by)
+        y = mk_operand(fym, ys, (1, len(ys)), other_mode(mode), by)
         z = do_op(op, x, y, sizing=policy, method=method)
     except Exception as e:
         acc.violation('exception', case, '%s %s %s sizing=%s method=%s raised %r' % (fxm.dtype, op, fym.dtype, policy, method, e),
@@ -297,6 +296,7 @@ def run_shard(sh):
                     for method in ('raw', 'repr'):
                         for mode in MODES:
                             judge_sizing(acc, fxm, fym, xs, ys, op, policy, method, mode, 'P1')
+                        judge_sizing(acc, fxm, fym, xs, ys, op, policy, method, ('around', 'saturate'), 'P1', 'value')
     elif part == 'P2':
         g = grid(2, sh['k'])
         tfmt = g[sh['ti']]
@@ -357,7 +357,7 @@ def replay(case):
                      tuple(case['tmode']), case['method'], p)
     else:
         judge_sizing(acc, Fmt(*case['fx']), Fmt(*case['fy']), case['xs'], case['ys'], case['op'], case['policy'], case['method'],
-                     tuple(case['mode']), p)
+                     tuple(case['mode']), p, case.get('by', 'raw'))
     return acc.violations
 
 
